@@ -8,7 +8,7 @@ RULE = ("Mode G: every validated raw model of the families and every connective 
         "then every in-bounds leaf assignment (region alphabet for 16-bit leaves) -> evaluate_propositions; oracle: rows of the "
         "asserted system hold at the extended assignment <=> evaluated top == 1, rows of the un-asserted system always hold; "
         "evaluated constants also compared with the reference truth function; columns looked up by id and must carry the model's "
-        "bounds. non-trivial = distinct model with both true and false assignments")
+        "bounds. Every fourth model runs all its assignments on ONE receiver with ONE dictionary object updated in place; every fifth builds its polyhedra over leaves of a user-defined subclass of puan.variable; leaves wider than 16 bits (25 / 31 bits) by region alphabet. non-trivial = distinct model with both true and false assignments")
 ASSUMPTIONS = [
     "models are filtered by errors()==[] (C10 guards that filter)",
     "reduced=True is outside the statement",
